@@ -474,3 +474,114 @@ theorem renderRoot_le (root : List Node) (env : Env) : PLe (renderRoot c root en
   unfold renderRoot
   exact PLe.bind (renderList_le c P' m inc' hP hm hinc root _) (fun _ => PLe.refl _)
 end
+
+/-! ## Included files, and a whole render -/
+
+/-- the source `RenderFile` reads: the disk first, the cache only when the file does not exist -/
+def budgetFileSource (fs : FS) (filename : Bytes) : Except Cause Bytes :=
+  match fs.read filename with
+  | .content b => .ok b
+  | .notExist => (match fs.cache filename with
+      | some b => .ok b
+      | none => .error (.other "notExist"))
+  | .otherError => .error .io
+
+/-- what `RenderFile` makes of the render of the file -/
+def budgetFileFinish : Bytes × Prog.Outcome Status → Prog (Status × Bytes)
+  | (out, .ok .done) => .ret (.done, out)
+  | (_, .ok st) => .ret (st, [])
+  | (_, .err e) => .fail e
+  | (_, .panic w) => .panic w
+  | (_, .unmodelled w) => .unmodelled w
+
+theorem renderFileWith_budget_eq (P : Prims) (O : OutPrims) (cfg : Cfg) (fs : FS) (inner : Nat → Bytes → Env → Prog (Status × Bytes))
+    (line : Nat) (filename : Bytes) (env : Env) :
+    renderFileWith P O cfg fs inner line filename env =
+      match budgetFileSource fs filename with
+      | .error c => .fail (.plain c)
+      | .ok src =>
+        match compileSource cfg.delims src line with
+        | .err e => .fail (.located e)
+        | .panic w => .panic w
+        | .unmodelled w => .unmodelled w
+        | .ok root => budgetFileFinish (renderRoot { P := P, O := O, cfg := cfg, inc := inner } root env).runPure := by
+  unfold renderFileWith
+  simp only
+  change (match budgetFileSource fs filename with | .error c => _ | .ok src => _) = _
+  cases budgetFileSource fs filename with
+  | error c => rfl
+  | ok src =>
+    simp only
+    cases compileSource cfg.delims src line with
+    | err e => rfl
+    | panic w => rfl
+    | unmodelled w => rfl
+    | ok root =>
+      simp only
+      split <;> simp_all [budgetFileFinish]
+
+theorem renderFileWith_le {P P' : Prims} (hP : PrimsLe P P') (O : OutPrims) (cfg : Cfg) {m : Int} (hm : cfg.budget ≤ m) (fs : FS)
+    {inner inner' : Nat → Bytes → Env → Prog (Status × Bytes)} (hi : ∀ l f e, PLe (inner l f e) (inner' l f e))
+    (line : Nat) (filename : Bytes) (env : Env) :
+    PLe (renderFileWith P O cfg fs inner line filename env)
+      (renderFileWith P' O { cfg with budget := m } fs inner' line filename env) := by
+  rw [renderFileWith_budget_eq, renderFileWith_budget_eq]
+  cases budgetFileSource fs filename with
+  | error c => exact PLe.refl _
+  | ok src =>
+    show PLe (match compileSource cfg.delims src line with
+        | .err e => .fail (.located e) | .panic w => .panic w | .unmodelled w => .unmodelled w
+        | .ok root => budgetFileFinish (renderRoot { P := P, O := O, cfg := cfg, inc := inner } root env).runPure)
+      (match compileSource cfg.delims src line with
+        | .err e => .fail (.located e) | .panic w => .panic w | .unmodelled w => .unmodelled w
+        | .ok root => budgetFileFinish (renderRoot { P := P', O := O, cfg := { cfg with budget := m }, inc := inner' } root env).runPure)
+    cases compileSource cfg.delims src line with
+    | err e => exact PLe.refl _
+    | panic w => exact PLe.refl _
+    | unmodelled w => exact PLe.unm _ _
+    | ok root =>
+      have hr := renderRoot_le { P := P, O := O, cfg := cfg, inc := inner } P' m inner' hP hm hi root env
+      rcases hr.runPure with ⟨out, w, e⟩ | e
+      · show PLe (budgetFileFinish (renderRoot { P := P, O := O, cfg := cfg, inc := inner } root env).runPure) _
+        rw [e]; exact PLe.unm _ _
+      · show PLe _ (budgetFileFinish (renderRoot (RCtx.raise { P := P, O := O, cfg := cfg, inc := inner } P' m inner') root env).runPure)
+        rw [e]; exact PLe.refl _
+
+theorem incFuel_le {P P' : Prims} (hP : PrimsLe P P') (O : OutPrims) (cfg : Cfg) {m : Int} (hm : cfg.budget ≤ m) (fs : FS) :
+    ∀ (fuel line : Nat) (f : Bytes) (env : Env),
+      PLe (incFuel P O cfg fs fuel line f env) (incFuel P' O { cfg with budget := m } fs fuel line f env)
+  | 0, _, _, _ => PLe.refl _
+  | fuel + 1, line, f, env => by
+    show PLe (renderFileWith P O cfg fs (incFuel P O cfg fs fuel) line f env)
+      (renderFileWith P' O { cfg with budget := m } fs (incFuel P' O { cfg with budget := m } fs fuel) line f env)
+    exact renderFileWith_le hP O cfg hm fs (incFuel_le hP O cfg hm fs fuel) line f env
+
+theorem frender_le {P P' : Prims} (hP : PrimsLe P P') (O : OutPrims) (cfg : Cfg) {m : Int} (hm : cfg.budget ≤ m) (fs : FS)
+    (fuel : Nat) (root : List Node) (env : Env) :
+    PLe (frender P O cfg fs fuel root env) (frender P' O { cfg with budget := m } fs fuel root env) := by
+  unfold frender
+  exact PLe.bind (renderRoot_le (mkCtx P O cfg fs fuel) P' m (incFuel P' O { cfg with budget := m } fs fuel) hP hm
+    (incFuel_le hP O cfg hm fs fuel) root env) (fun _ => PLe.refl _)
+
+/-- **a whole render**: raise the loop budget and let the value layer answer more filter applications — the render
+    gives the same output or the same error, unless it gave no answer (`unmodelled`) before -/
+theorem run_le {P P' : Prims} (hP : PrimsLe P P') (O : OutPrims) (cfg : Cfg) {m : Int} (hm : cfg.budget ≤ m) (fs : FS)
+    (fuel : Nat) (src : Bytes) (line : Nat) (env : Env) :
+    (∃ w, run P O cfg fs fuel src line env = .unmodelled w) ∨
+      run P' O { cfg with budget := m } fs fuel src line env = run P O cfg fs fuel src line env := by
+  unfold run
+  show (∃ w, (match compileSource cfg.delims src line with
+      | .err e => RunResult.err e | .panic w => .panic w | .unmodelled w => .unmodelled w
+      | .ok root => _) = RunResult.unmodelled w) ∨
+    (match compileSource cfg.delims src line with
+      | .err e => RunResult.err e | .panic w => .panic w | .unmodelled w => .unmodelled w
+      | .ok root => _) = _
+  cases compileSource cfg.delims src line with
+  | err e => exact .inr rfl
+  | panic w => exact .inr rfl
+  | unmodelled w => exact .inl ⟨w, rfl⟩
+  | ok root =>
+    simp only
+    rcases (frender_le hP O cfg hm fs fuel root env).runPure with ⟨out, w, e⟩ | e
+    · left; exact ⟨w, by rw [e]⟩
+    · right; rw [e]
